@@ -27,7 +27,18 @@ def tick_targets(limit):
     return out
 
 
+class TooManyErrors(Exception):
+    pass
+
+
 def tick_history(limit, report, targets=None, prefix="C03"):
+    try:
+        return _tick_history(limit, report, targets, prefix)
+    except TooManyErrors:
+        return 0
+
+
+def _tick_history(limit, report, targets, prefix):
     """One decoder sees a long run of fast-packet frames (up to `limit`). Around every target count T three otherwise idle streams
     (fresh or long unused keys) start a message on the (T-1)-th, T-th and (T+1)-th frame the decoder has ever seen; every message
     (also of the busy filler stream) must be delivered. report(bucket, what) is called for every discrepancy."""
@@ -35,6 +46,7 @@ def tick_history(limit, report, targets=None, prefix="C03"):
     dec = NMEA2000Decoder()
     count = 0
     seqs = {}
+    errors = []
 
     def send(pgn, src, dest, frames):
         nonlocal count
@@ -42,7 +54,15 @@ def tick_history(limit, report, targets=None, prefix="C03"):
         i = wire.ident(pgn, src, dest, 3)
         for fr in frames:
             count += 1
-            r = dec.decode_tcp(wire.ebyte(i, fr))
+            try:
+                r = dec.decode_tcp(wire.ebyte(i, fr))
+            except Exception as e:
+                r = None
+                if not errors:
+                    report(f"{prefix}|ebyte|long-run|decoder-error", f"frame {count} of the run: {type(e).__name__}: {e}")
+                errors.append(count)
+                if len(errors) > 50:
+                    raise TooManyErrors()
         return r
 
     def fresh(key, payload):
